@@ -1,6 +1,10 @@
 package checks
 
 import (
+	"fmt"
+
+	disttypes "github.com/chain4energy/c4e-chain/x/cfedistributor/types"
+
 	"verifsim/kernel"
 )
 
@@ -55,6 +59,71 @@ func distMonitors(prop string, predictive bool) []kernel.Monitor {
 	return []kernel.Monitor{dm, haltMonitor{}}
 }
 
+// permutedDistGenesis: the metamorphic twin of a configuration: sources of every sub-distributor in reverse order
+// and every INTERNAL id replaced by a fresh unique one. By C04 the outcome must not depend on either.
+func permutedDistGenesis(raw jsonRaw) (jsonRaw, bool) {
+	var gs disttypes.GenesisState
+	if err := kernel.Enc().Marshaler.UnmarshalJSON(raw, &gs); err != nil || len(gs.States) > 0 {
+		return nil, false
+	}
+	rename := map[string]string{}
+	n := 0
+	ren := func(a *disttypes.Account) {
+		if a.Type != disttypes.InternalAccount {
+			return
+		}
+		if _, ok := rename[a.Id]; !ok {
+			n++
+			rename[a.Id] = fmt.Sprintf("twin-internal-%d", n)
+		}
+		a.Id = rename[a.Id]
+	}
+	for i := range gs.Params.SubDistributors {
+		sd := &gs.Params.SubDistributors[i]
+		for l, r := 0, len(sd.Sources)-1; l < r; l, r = l+1, r-1 {
+			sd.Sources[l], sd.Sources[r] = sd.Sources[r], sd.Sources[l]
+		}
+		for _, s := range sd.Sources {
+			ren(s)
+		}
+		ren(&sd.Destinations.PrimaryShare)
+		for _, sh := range sd.Destinations.Shares {
+			ren(&sh.Destination)
+		}
+	}
+	if gs.Params.Validate() != nil {
+		return nil, false
+	}
+	return kernel.Enc().Marshaler.MustMarshalJSON(&gs), true
+}
+
+// c04Twin executes the recorded blocks on the permuted configuration and compares every balance with the original run.
+func c04Twin(o *Outcome, runA *kernel.Run) {
+	if o.Trace == nil || len(o.Violations) > 0 || o.InfraErr != nil || runA == nil || runA.Chain.Halted != nil {
+		return
+	}
+	twinCfg, ok := permutedDistGenesis(o.Trace.Spec.Distributor)
+	if !ok {
+		return
+	}
+	trB := &kernel.Trace{Spec: o.Trace.Spec, Blocks: o.Trace.Blocks}
+	trB.Spec.Distributor = twinCfg
+	runB, oB := execTrace(trB, nil, []kernel.Monitor{haltMonitor{}}, false)
+	if oB.InfraErr != nil || len(oB.Violations) > 0 || runB.Chain.Halted != nil {
+		o.Violations = append(o.Violations, oB.Violations...)
+		return
+	}
+	o.Stats.Inc("probe.metamorphic_twin_compared")
+	o.Evals++
+	for addr, dd := range runA.Chain.AllBalances().Diff(runB.Chain.AllBalances()) {
+		for denom, delta := range dd {
+			o.Violations = append(o.Violations, &kernel.Violation{Property: "C04", Check: "order-and-id-independence", Signature: "outcome-depends-on-source-order-or-internal-ids",
+				Message: fmt.Sprintf("with sources listed in reverse order and internal ids renamed, %s ends up with %s%s more", addr, delta, denom), Block: len(o.Trace.Blocks) - 1, TxIndex: -1})
+			return
+		}
+	}
+}
+
 func distRunSeed(prop string, seed uint64, tier string) *Outcome {
 	r := kernel.NewRng(seed)
 	opts := distProfileOpts{Prop: prop, Blocks: [2]int{10, 40}, MaxAmtExp: 30}
@@ -65,14 +134,20 @@ func distRunSeed(prop string, seed uint64, tier string) *Outcome {
 	tr := &kernel.Trace{Profile: prop, Seed: seed, Spec: *spec}
 	src := distSource(r.Fork(11), spec, cfg, opts)
 	mons := distMonitors(prop, true)
-	_, o := execTrace(tr, src, mons, false)
+	run, o := execTrace(tr, src, mons, false)
+	if prop == "C04" {
+		c04Twin(o, run)
+	}
 	finishDistOutcome(o, mons)
 	return o
 }
 
 func distReplay(prop string, tr *kernel.Trace) *Outcome {
 	mons := distMonitors(prop, true)
-	_, o := execTrace(tr, nil, mons, false)
+	run, o := execTrace(tr, nil, mons, false)
+	if prop == "C04" {
+		c04Twin(o, run)
+	}
 	finishDistOutcome(o, mons)
 	return o
 }
